@@ -265,7 +265,7 @@ def parse_youtube_url(url, fix_common_mistakes=True):
     mlist_query = QUERY_LIST_RE.search(url)
     list_query = mlist_query.group(1) if mlist_query else None
 
-    if m:
+    if m and is_youtube_video_id(m.group(1)):
         return YoutubeVideo(id=m.group(1), playlist=list_query)
 
     # Parsing
